@@ -395,6 +395,160 @@ fn datetime_cases(seed: u64, n: u64, out: &mut Out) {
     }
 }
 
+/* ------------- `FromIterator<Value> for Set` and the public helpers `binary_relation` / `binary_arith` against their
+   panic-site-explicit mirrors (`np-set`, `np-binop` requests) ------------- */
+
+/// values of every kind: literals (boundary longs, strings, uids), extension values, sets and records (nested, with repeated
+/// and re-ordered elements)
+fn np_value(r: &mut Rng, exts: &[cedar_policy_core::ast::Value], depth: u32) -> cedar_policy_core::ast::Value {
+    use cedar_policy_core::ast::Value;
+    let k = if depth == 0 { r.below(5) } else { r.below(8) };
+    match k {
+        0 => Value::from(*r.pick(&[0i64, 1, -1, 2, 3, i64::MAX, i64::MIN, 4611686018427387904, -4611686018427387904, 3037000500])),
+        1 => Value::from(r.chance(50)),
+        2 => Value::from(*r.pick(&["", "a", "b", "t", "\u{e9}"])),
+        3 => Value::from(gen::mk_uid(*r.pick(gen::TYPES), *r.pick(&["a", "b"]))),
+        4 => r.pick(exts).clone(),
+        5 | 6 => {
+            let n = r.below(4);
+            let mut xs: Vec<Value> = (0..n).map(|_| np_value(r, exts, depth - 1)).collect();
+            if !xs.is_empty() && r.chance(40) { let d = xs[r.below(xs.len())].clone(); xs.push(d); }
+            Value::set(xs, None)
+        }
+        _ => {
+            let n = r.below(3);
+            let ps: Vec<(smol_str::SmolStr, Value)> = (0..n).map(|_| ((*r.pick(&["a", "b", "c"])).into(), np_value(r, exts, depth - 1))).collect();
+            Value::record(ps, None)
+        }
+    }
+}
+
+fn np_exts() -> Vec<cedar_policy_core::ast::Value> {
+    use cedar_policy_core::ast::Expr;
+    let ents = cedar_policy_core::entities::Entities::new();
+    let q = cedar_policy_core::ast::Request::new_unchecked(
+        cedar_policy_core::ast::EntityUIDEntry::unknown(), cedar_policy_core::ast::EntityUIDEntry::unknown(),
+        cedar_policy_core::ast::EntityUIDEntry::unknown(), None);
+    let ev = cedar_policy_core::evaluator::Evaluator::new(q, &ents, cedar_policy_core::extensions::Extensions::all_available());
+    let mut out = Vec::new();
+    for (f, a) in [("decimal", "1.0"), ("decimal", "1.0000"), ("decimal", "-0.5"), ("datetime", "2024-01-01"), ("datetime", "2024-01-01T00:00:00Z"),
+        ("datetime", "1970-01-01"), ("duration", "1h"), ("duration", "60m"), ("duration", "-1ms"), ("ip", "10.0.0.1"), ("ip", "::1")] {
+        let e = Expr::call_extension_fn(gen::name(f), vec![Expr::val(a)]);
+        if let Ok(v) = ev.interpret(&e, &std::collections::HashMap::new()) { out.push(v); }
+    }
+    out
+}
+
+fn set_cases(seed: u64, n: u64, out: &mut Out) {
+    use cedar_policy_core::ast::{Set, Value};
+    let mut r = Rng::new(seed ^ 0x5E7);
+    let exts = np_exts();
+    for i in 0..n {
+        // 0..6 elements; 1/3 all literals, with repeats and permutations
+        let len = r.below(7);
+        let all_lit = i % 3 == 0;
+        let mut vs: Vec<Value> = (0..len).map(|_| if all_lit { np_value(&mut r, &exts, 0) } else { np_value(&mut r, &exts, 2) }).collect();
+        if all_lit { vs.retain(|v| matches!(v.value_kind(), cedar_policy_core::ast::ValueKind::Lit(_))); }
+        if !vs.is_empty() && r.chance(50) { let d = vs[r.below(vs.len())].clone(); let at = r.below(vs.len() + 1); vs.insert(at, d); }
+        let req = format!("(np-set{})", vs.iter().map(|v| format!(" {}", sx::value(v))).collect::<String>());
+        let meta = format!("Set::from_iter of {} values (all literals: {})", vs.len(), vs.iter().all(|v| matches!(v.value_kind(), cedar_policy_core::ast::ValueKind::Lit(_))));
+        let vs2 = vs.clone();
+        match catch_unwind(AssertUnwindSafe(|| <Set as std::iter::FromIterator<Value>>::from_iter(vs2))) {
+            Ok(s) => {
+                // the other constructor of the same type must agree on the representation
+                let s2 = Set::new(vs.clone());
+                if s2.fast.is_some() != s.fast.is_some() || s2.authoritative.len() != s.authoritative.len() || s != s2 {
+                    out.propfail("Set::from_iter and Set::new disagree", &req, &format!("{s:?} vs {s2:?}"));
+                }
+                if let Some(f) = &s.fast { if f.len() != s.authoritative.len() { out.propfail("Set fast/authoritative sizes differ", &req, &format!("{s:?}")); } }
+                if s.fast.is_none() && !vs.is_empty() { out.nontrivial(&format!("np-set slow {req}")); }
+                out.line(req, format!("(np-set {} {})", if s.fast.is_some() { "fast" } else { "slow" }, s.authoritative.len()), meta);
+            }
+            Err(_) => {
+                out.line(req.clone(), "(np-set panic)".into(), meta);
+                out.propfail("panic in FromIterator<Value> for Set", &req, &LAST_PANIC.with(|l| l.borrow().clone()));
+            }
+        }
+        out.count("np_set.cases");
+    }
+}
+
+fn binop_cases(seed: u64, n: u64, out: &mut Out) {
+    use cedar_policy_core::ast::{BinaryOp, Value};
+    use cedar_policy_core::evaluator::{binary_arith, binary_relation};
+    let mut r = Rng::new(seed ^ 0xB1709);
+    let exts = np_exts();
+    let ops = [(BinaryOp::Eq, "eq"), (BinaryOp::Less, "less"), (BinaryOp::LessEq, "lessEq"), (BinaryOp::Add, "add"), (BinaryOp::Sub, "sub"),
+        (BinaryOp::Mul, "mul"), (BinaryOp::In, "in"), (BinaryOp::Contains, "contains"), (BinaryOp::ContainsAll, "containsAll"),
+        (BinaryOp::ContainsAny, "containsAny"), (BinaryOp::GetTag, "getTag"), (BinaryOp::HasTag, "hasTag")];
+    let all = cedar_policy_core::extensions::Extensions::all_available();
+    for i in 0..n {
+        let (op, opname) = ops[(i as usize) % ops.len()];
+        let rel = (i / 12) % 2 == 0;
+        // half the pairs are two longs (the only way past `get_as_long()?` in binary_arith), a quarter two extension values
+        let (a, b): (Value, Value) = match r.below(4) {
+            0 | 1 => (np_value(&mut r, &exts, 0), np_value(&mut r, &exts, 0)),
+            2 => (r.pick(&exts).clone(), r.pick(&exts).clone()),
+            _ => (np_value(&mut r, &exts, 2), np_value(&mut r, &exts, 2)),
+        };
+        let (a, b) = if r.chance(40) { (Value::from(gen::gen_long(&mut r)), Value::from(gen::gen_long(&mut r))) } else { (a, b) };
+        let req = format!("(np-binop {} {} {} {})", if rel { "rel" } else { "arith" }, opname, sx::value(&a), sx::value(&b));
+        let meta = format!("{}({opname}, {a}, {b})", if rel { "binary_relation" } else { "binary_arith" });
+        // the panic hook is silenced for this call: a panic is the documented reaction to an operator outside the helper's contract
+        let res = catch_unwind(AssertUnwindSafe(|| if rel { binary_relation(op, &a, &b, all) } else { binary_arith(op, a.clone(), b.clone(), None) }));
+        let in_contract = if rel { matches!(op, BinaryOp::Eq | BinaryOp::Less | BinaryOp::LessEq) } else { matches!(op, BinaryOp::Add | BinaryOp::Sub | BinaryOp::Mul) };
+        match res {
+            Ok(x) => out.line(req, format!("(np-binop {})", sx::result(&x)), meta),
+            Err(_) => {
+                if in_contract { out.propfail("panic in binary_relation/binary_arith on an operator of its contract", &req, &LAST_PANIC.with(|l| l.borrow().clone())); }
+                else { out.nontrivial(&format!("np-binop out-of-contract panic {opname} {rel}")); out.count("np_binop.out_of_contract_panics"); }
+                out.line(req, "(np-binop panic)".into(), meta);
+            }
+        }
+        out.count("np_binop.cases");
+    }
+}
+
+/// `to_unescaped_string` + `Display` of every returned error against the range-explicit mirror of `Unescape::unescape`
+fn unescape_cases(seed: u64, n: u64, out: &mut Out) {
+    use cedar_policy_core::parser::unescape::to_unescaped_string;
+    let mut r = Rng::new(seed ^ 0xE5CA);
+    let atoms = ["a", "z", "\u{e9}", "\u{1F600}", "\\", "\\n", "\\t", "\\0", "\\\\", "\\'", "\\\"", "\"", "\r", "\n", " ", "\t", "\\\n", "\\x", "\\x4", "\\x41", "\\x7f", "\\x80",
+        "\\xg", "\\u", "\\u{", "\\u{}", "\\u{_", "\\u{41}", "\\u{1F600}", "\\u{110000}", "\\u{d800}", "\\u{0000041}", "\\u{4_1}", "\\u{zz}", "\\u{41", "\\*", "\\q", "\\\u{e9}", "*", "}", "{", "_", "0", "f"];
+    let mut one = |s: &str, out: &mut Out| {
+        let req = format!("(np-unescape str {})", sx::qs(s));
+        let meta = format!("to_unescaped_string({})", sx::qs(s));
+        match catch_unwind(AssertUnwindSafe(|| to_unescaped_string(s).map(|_| ()).map_err(|errs| errs.iter().map(|e| e.to_string()).collect::<Vec<_>>()))) {
+            Ok(Ok(())) => out.line(req, "(np-unescape ok)".into(), meta),
+            Ok(Err(msgs)) => {
+                let mut o = String::from("(np-unescape err");
+                for m in &msgs {
+                    let shown = m.strip_prefix("the input `").and_then(|x| x.strip_suffix("` is not a valid escape")).unwrap_or("<unexpected message>");
+                    o.push(' ');
+                    o.push_str(&sx::qs(shown));
+                }
+                o.push(')');
+                if msgs.len() > 1 || !s.is_ascii() { out.nontrivial(&format!("np-unescape {s}")); }
+                out.line(req, o, meta);
+            }
+            Err(_) => {
+                out.line(req.clone(), "(np-unescape panic)".into(), meta);
+                out.propfail("panic in to_unescaped_string / Display for UnescapeError", &req, &LAST_PANIC.with(|l| l.borrow().clone()));
+            }
+        }
+        out.count("np_unescape.cases");
+    };
+    for a in atoms.iter() { one(a, out); }
+    for _ in 0..n {
+        let k = 1 + r.below(6);
+        let mut s = String::new();
+        for _ in 0..k { s.push_str(*r.pick(&atoms)); }
+        // cut at a random char boundary: escapes truncated in every position
+        if r.chance(30) { let cs: Vec<char> = s.chars().collect(); let m = r.below(cs.len() + 1); s = cs[..m].iter().collect(); }
+        one(&s, out);
+    }
+}
+
 /* ------------------------------- worker / parent ------------------------------- */
 
 fn worker(args: &Args, out: &mut Out, lo: u64, hi: u64) {
@@ -418,6 +572,9 @@ fn worker(args: &Args, out: &mut Out, lo: u64, hi: u64) {
     if lo == 0 && one.is_none() {
         like_cases(args.seed, if args.thorough { 20000 } else { 3000 }, out);
         datetime_cases(args.seed, if args.thorough { 30000 } else { 4000 }, out);
+        set_cases(args.seed, if args.thorough { 30000 } else { 3000 }, out);
+        binop_cases(args.seed, if args.thorough { 60000 } else { 6000 }, out);
+        unescape_cases(args.seed, if args.thorough { 40000 } else { 4000 }, out);
         if_true_probe(out);
         indent_probe(out);
     }
